@@ -59,6 +59,25 @@ func ruleR161(c *Ctx) {
 			if !constGuard {
 				problems = append(problems, "an identifier of the wrapped scope that is no constant/static function is resolved by the wrapped scope instead of becoming an attribute of the map")
 			}
+			// ... and under nothing else: found in the wrapped scope and constant must suffice
+			for _, gd := range g.Guards(r) {
+				cond := ast.Unparen(gd.Cond)
+				if sel, ok := cond.(*ast.SelectorExpr); ok && sel.Sel.Name == "IsConst" {
+					continue
+				}
+				if id, ok := cond.(*ast.Ident); ok && gd.Val {
+					// the ok of the lookup
+					if as, i := definingAssign(info, lit, info.ObjectOf(id)); as != nil && i == 1 {
+						continue
+					}
+				}
+				if be, ok := cond.(*ast.BinaryExpr); ok && (be.Op == token.EQL || be.Op == token.NEQ) {
+					if y, ok := ast.Unparen(be.Y).(*ast.Ident); ok && y.Name == "nil" {
+						continue // the test for an empty wrapped scope
+					}
+				}
+				problems = append(problems, "a constant/static function of the wrapped scope wins only under the additional condition "+nodeStr(c.Fset, gd.Cond)+": otherwise an attribute of the same name shadows it")
+			}
 		case *ast.CompositeLit:
 			nAttr++
 			okThis := false
